@@ -118,11 +118,10 @@ def _value_of(expr: Expr) -> Number | None:
     """Compute a numerical value of an expression, return None if it's not possible."""
     try:
         value = N(expr).round(n=NUM_DIGITS_PRECISION)
-    except TypeError as e:
-        if str(e) == "Cannot round symbolic expression":
-            return None
-        else:
-            raise e
+    except TypeError:
+        # Raised for symbolic expressions ("Cannot round symbolic expression"), but also e.g. when
+        # numerical evaluation of a Sum/Product with symbolic limits has to decide a symbolic relation.
+        return None
 
     # Map to integer if possible
     if int(value) == value or value.is_Float and value % 1 == 0:
